@@ -13,7 +13,7 @@ static fiber_semaphore_t sem;
 static int sinit, successes, posts_begun, posts_done;
 static struct {
   int n, op[MAXOPS];
-} prog[MAXFB];
+} prog[MAXFB + 16]; /* the generated fibers plus the dedicated posters */
 static int nfib;
 
 static NS void g_success(int who, const char* how) {
@@ -100,6 +100,7 @@ void h_run(void) {
       /* poster scripts are capped; several posters if needed */
       if (prog[nfib].n == MAXOPS) {
         nfib++;
+        if (nfib >= MAXFB + 15) sim_violation("SIM-harness-table", "too many poster fibers");
         prog[nfib].n = 0;
       }
       prog[nfib].op[prog[nfib].n++] = S_POST;
@@ -112,7 +113,8 @@ void h_run(void) {
   sim_fiber_mode();
   fiber_manager_init(c.threads);
   fiber_semaphore_init(&sem, sinit);
-  fiber_t* f[MAXFB + 8];
+  fiber_t* f[MAXFB + 16];
+  if (nfib > MAXFB + 16) sim_violation("SIM-harness-table", "%d fibers", nfib);
   for (int i = 0; i < nfib; i++) f[i] = fiber_create(STK, fib, (void*)(intptr_t)i);
   for (int i = 0; i < nfib; i++) fiber_join(f[i], NULL);
   int v = fiber_semaphore_getvalue(&sem);
